@@ -62,7 +62,7 @@ class UnitAnalysis:
         if key in self._param_cache:
             return self._param_cache[key]
         if key in self._busy:
-            return TOP
+            return EMPTY  # recursive call chain: assume nothing
         self._busy.add(key)
         acc = None
         for caller, call in self.prog.callers_of(fn):
@@ -83,9 +83,10 @@ class UnitAnalysis:
         if key in self._ret_cache:
             return self._ret_cache[key]
         if key in self._busy:
-            return TOP
+            return EMPTY
         self._busy.add(key)
-        fl = self.flow(fn)
+        # independent of the callers (no cycle through memoised caller flows)
+        fl = TagFlow(self.prog, fn, UnitPolicy(self, fn, seed_params=False))
         acc = None
         for node in ast.walk(fn.node):
             if isinstance(node, ast.Return) and self.prog.function_of(node) is fn and node.value is not None:
@@ -107,12 +108,15 @@ class UnitAnalysis:
 
 
 class UnitPolicy(BasePolicy):
-    def __init__(self, ua: UnitAnalysis, fn: FunctionInfo):
+    def __init__(self, ua: UnitAnalysis, fn: FunctionInfo, seed_params: bool = True):
         self.ua = ua
         self.fn = fn
+        self.seed_params = seed_params
 
     def initial(self, flow):
         st = {}
+        if not self.seed_params:
+            return st
         for p in self.fn.params:
             if p == "self":
                 continue
